@@ -232,6 +232,22 @@ def gen_more(rng):
     return line, {"kind": "Y", "n": n, "pts": pts, "rows": min(n, (rows * n * 8 + extra) // (n * 8)), "bytes": rows * n * 8 + extra}
 
 
+def more_info(line):
+    """the info record of gen_more, recovered from a case line (replay)"""
+    t = line.split(); sec = [[]]
+    for x in t[1:]:
+        if x == "|": sec.append([])
+        else: sec[-1].append(x)
+    while len(sec) < 4: sec.append([])
+    if t[0] == "G":
+        n, dim = int(sec[0][2]), int(sec[0][3]); xs = list(map(int, sec[1]))
+        return {"kind": "G", "n": n, "pts": [xs[i * dim:(i + 1) * dim] for i in range(n)], "gamma": float.fromhex(sec[0][1]), "ctype": sec[0][0], "flips": list(map(int, sec[2]))}
+    if t[0] == "X":
+        n, dim, mb, np_ = map(int, sec[0]); xs = list(map(int, sec[1])); pr = list(map(int, sec[2]))
+        return {"kind": "X", "n": np_, "pts": [xs[i * dim:(i + 1) * dim] for i in range(n)], "pairs": list(zip(pr[0::2], pr[1::2])), "flips": list(map(int, sec[3]))}
+    n, dim, rows, extra = map(int, sec[0]); xs = list(map(int, sec[1]))
+    return {"kind": "Y", "n": n, "pts": [xs[i * dim:(i + 1) * dim] for i in range(n)], "rows": min(n, (rows * n * 8 + extra) // (n * 8)), "bytes": rows * n * 8 + extra}
+
 def monitor_more(out, info):
     """spec predicate on the implementation's output: every entry read through every access path equals the direct kernel value
     of the points that the flips put at (i, j)."""
@@ -304,8 +320,9 @@ def more_stream(ck, n):
     if exe is None:
         ck.oblige("harness for Gaussian / difference / partly precomputed matrices builds against /repo", False, err); return 0
     tmpd = os.path.join(BUILD, "tmp", PID, "more"); os.makedirs(tmpd, exist_ok=True)
-    cases = [gen_more(ck.rng) for _ in range(n)]
-    cdir = os.path.join(ROOT, "corpus", PID)
+    if ck.replay: cases = [(l, more_info(l)) for l in open(ck.replay).read().split("\n") if l.strip() and not l.startswith("#")]
+    else: cases = [gen_more(ck.rng) for _ in range(n)]
+    n = len(cases)
     rc, outl, err = run_lines(exe, [c for c, _ in cases], os.path.join(tmpd, "cases.txt"))
     rcm, moutl, errm = run_lines(model, [c for c, _ in cases], os.path.join(tmpd, "cases_model.txt"))
     if rcm != 0 or len(moutl) != len(cases): raise RuntimeError("model driver c09m failed: " + errm[-1000:])
@@ -520,6 +537,8 @@ def main():
     if ck.replay and open(ck.replay).read().lstrip().startswith("C ") and open(ck.replay).read().split()[1] in COMP_KINDS:
         # replay of a composed history (build/replay/C09/comp_*.txt)
         ck.cov["evaluations"] = comp_stream(ck, 1); ck.finish()
+    if ck.replay and open(ck.replay).read().split()[:1] and open(ck.replay).read().split()[0] in ("G", "X", "Y"):
+        ck.cov["evaluations"] = more_stream(ck, 1); ck.finish()
     model = extract_model(PID, "C09Extract.v", "c09_driver.ml")
     exe, err = cxx_build("c09_cache", [os.path.join(ROOT, "harness", "c09_cache.cpp")])
     if exe is None:
@@ -569,7 +588,7 @@ def main():
     ck.cov["evaluations"] = len(flat) + (derived_stream(ck, 300 if not big else 3000) if not ck.replay else 0) + (more_stream(ck, 300 if not big else 3000) if not ck.replay else 0) \
         + (comp_stream(ck, 300 if not big else 3000, big) if not ck.replay else 0)
     ck.cov["distinct_nontrivial"] = len(set(" ".join(c) for c in cases if len(c) > 3))
-    ck.cov["rule"] = "random histories of CachedMatrix/LRUCache operations (row, const row, flip, setMaxCachedIndex, clear, truncate, mark) on n<=8 (16 in thorough) variables, capacities 1..n^2+3, filtered by the model's precondition check wf_op; non-trivial = at least 3 operations; distinct = distinct operation strings"
+    ck.cov["rule"] = "random histories of CachedMatrix/LRUCache operations (row, const row, flip, setMaxCachedIndex, clear, truncate, mark) on n<=8 (16 in thorough) variables, capacities 1..n^2+3, filtered by the model's precondition check wf_op; non-trivial = at least 3 operations; distinct = distinct operation strings; plus the derived stream (flip histories of 6 classes), the more stream (Gaussian float/double, Difference on unequal batches, PartlyPrecomputed with byte-granular cache sizes incl. the runtime-check case) and the comp stream (histories of row(k,a,e) / const row sub-ranges / flips / setMaxCachedIndex / clear on CachedMatrix<Base> and flips / rows on PrecomputedMatrix<Base>, Base in K R M E B D G, capacities N, 2N, N^2, random, below N; batch size 1..n+3)"
     ck.cov["samples"] = cases[:2]
     ck.cov["traces_validated_against_impl"] = len(cases)
     ck.cov["disagreements_checked"] = r["disagreements"] + r["monitor_failures"]
